@@ -427,7 +427,7 @@ class TAPParser:
                 if self._RE_YAML_END.match(line):
                     self.state = self._MAIN
                     return
-                if line.startswith(self.yaml_indent):
+                if line.startswith(self.yaml_indent) or not line.strip():
                     return
                 yield self.Error(f'YAML block not terminated (started on line {self.yaml_lineno})')
                 self.state = self._MAIN
